@@ -438,6 +438,7 @@ int qsx_more_commands (const char *c)
 	else if (!strcmp (c, "readbasis")) cmd_readbasis ();
 	else if (!strcmp (c, "loadbasis")) cmd_loadbasis ();
 	else if (!strcmp (c, "putfile")) cmd_putfile ();
+	else if (!strcmp (c, "setprec")) { QSexact_set_precision ((unsigned) tok_int ()); printf ("ok\n"); }
 	else if (!strcmp (c, "setlim"))
 	{
 		mpq_QSdata *p = slot ();
